@@ -11,9 +11,9 @@
 // is replayed on a fresh file (every prefix of a sequence is a trace of its own, so the oracle runs after every
 // operation; a trace is not extended past the first step after which something is wrong).  A write goes through the
 // untyped setData(DataType, const void*, count, offset) when (position + letter index) is even and through the typed
-// overloads otherwise (std::vector<T> / T[2] / T[3] at rank 1, boost::multi_array<T,N>, scalar T for a single cell); Append goes through
-// appendData, Grow / Shrink through dataExtent(NDSize), SetWhole through the typed setData(container) that also sets the
-// extent.  Steps at odd positions are applied through a freshly fetched handle, the others through a handle that is kept
+// overloads otherwise (std::vector<T> / T[2] / T[3] at rank 1, boost::multi_array<T,N>, scalar T for a single cell);
+// Append goes through appendData, Grow / Shrink through dataExtent(NDSize), SetWhole through the typed setData(container)
+// that also sets the extent.  Steps at odd positions are applied through a freshly fetched handle, the others through a handle that is kept
 // alive across the sequence.  REOPEN closes the file and opens it again (ReadWrite; as the last step of a trace
 // alternating ReadOnly / ReadWrite).  The calibration letters exist for numeric T only.
 // Values: every written element of a sequence is distinct (a counter mapped into T's domain: small integers, for
@@ -25,12 +25,18 @@
 // the two -- alternating with the sequence -- goes through every read path, the other one reads extent, type and the whole
 // array): dataExtent() and dataType(); for EVERY sub-hyperslab (offset, count) of the extent while every axis <= 3 (else
 // whole + faces + corners) getData into a buffer PRE-FILLED WITH A SENTINEL (plus two guard elements) equals the model;
-// getDataDirect equals the stored cells regardless of calibration; typed reads (whole container, container with count +
+// (with a calibration set: the calibrated value converted to T); getDataDirect (whole array and a rotating quarter of the
+// sub-hyperslabs) equals the stored cells regardless of calibration; typed reads (whole container, container with count +
 // offset, pre-sized container + offset, std::vector line, scalar); for numeric T the whole array read as each of the ten
 // numeric types U equals the stored value (no calibration) or sum c_k (x - o)^k (calibration) wherever that is exactly
 // representable in U (cells where it is not are don't-care: out-of-range / inexact conversions are not asserted).
 // A cell that every raw read path returns wrongly in the same way is reported against the last operation; a read path
 // that disagrees with the others is reported against that path.
+// Bounds.  quick: depth 3, reduced alphabet (no W_cell(first), SetWhole(shape-1), Poly([0,0,1]), UnsetOrigin; at rank >= 3
+// Grow / Shrink on the first and last axis only): all 12 T x rank {1,2} x None (initial extents [2], [0] and [2,3]), Double x
+// rank {3,4} x None, {Double, String, Int8} x {DeflateNormal, Auto} x rank {1,2}.  thorough: all 12 T x rank 1-4 x 3
+// compressions at depth 3 (full alphabet at rank <= 2, four / two initial extents for None); {Double, Int8, UInt64, Bool,
+// String} x None at depth 4 (rank 1 full alphabet, rank 2 reduced) and {Double, Bool, String} at depth 5 (rank 1, reduced).
 // Large-array family: 1-D Double / Int32 arrays x three compression settings, created with extent 3000 / 0 / 1000, resized
 // to 3000 (past the guessed chunk size), ONE block written somewhere in the middle (five positions, around 1024 / 1500 /
 // 2048 / the end), optionally reopened / grown / shrunk into the block and grown again, then read block-wise (100 / 1024 /
@@ -583,7 +589,11 @@ struct Runner {
                     return false;
                 }
                 lastop = ops;
-                if (rep) { tally("steps_checked"); dst("outcomes", ops + (readonly ? "(ReadOnly)" : "(ReadWrite)") + "|" + tn + "|accepted"); }
+                if (rep) {
+                    tally("steps_checked");
+                    dst("outcomes", ops + (readonly ? "(ReadOnly)" : "(ReadWrite)") + "|" + tn + "|accepted");
+                    if (vf::opt.verbose) fprintf(stderr, "C01 %strace: %s => accepted\n", quiet ? "(quiet) " : "", trace.c_str());
+                }
                 continue;
             }
             // writer: the kept handle at even positions, a freshly fetched one at odd positions
@@ -1195,9 +1205,10 @@ int main(int argc, char **argv) {
         for (int t : {TY_DOUBLE, TY_STRING, TY_INT8}) for (int c = 1; c <= 2; c++) { add("C", t, 1, c, 1, depth3, 0); add("C", t, 2, c, 1, depth3, 0); }
     } else {
         // A: full T x rank 1-4 x 3 compressions at depth 3 (full alphabet at rank <= 2, reduced above);
-        // D: depth 4 (full alphabet, rank 1; reduced, rank 2) and depth 5 (reduced alphabet, rank 1) for {Double, Int8, UInt64, Bool, String}, None
+        // D: {Double, Int8, UInt64, Bool, String}, None: depth 4 (full alphabet at rank 1, reduced at rank 2); depth 5 (reduced alphabet, rank 1)
+        //    for {Double, Bool, String}
         for (int t = 0; t < TY_COUNT; t++) for (int c = 0; c < 3; c++) {
-            add("A", t, 1, c, c == 0 ? 4 : 2, depth3, 1);
+            add("A", t, 1, c, c == 0 ? 4 : 1, depth3, 1);
             add("A", t, 2, c, c == 0 ? 2 : 1, depth3, 1);
             add("A", t, 3, c, 1, depth3, 0);
             add("A", t, 4, c, 1, depth3, 0);
@@ -1205,7 +1216,7 @@ int main(int argc, char **argv) {
         for (int t : {TY_DOUBLE, TY_INT8, TY_UINT64, TY_BOOL, TY_STRING}) {
             add("D", t, 1, 0, 1, optint("depth-deep1", 4), 1);
             add("D", t, 2, 0, 1, optint("depth-deep2", 4), 0);
-            add("D", t, 1, 0, 1, optint("depth-deepest", 5), 0);
+            if (t == TY_DOUBLE || t == TY_BOOL || t == TY_STRING) add("D", t, 1, 0, 1, optint("depth-deepest", 5), 0);
         }
     }
     for (const Config &c : configs) {
